@@ -75,6 +75,7 @@ type link struct {
 	closedC  chan struct{}
 	gate     chan struct{} // non-nil while the stub->runtime pump is stalled
 	peer     *refuser      // the raw runtime peer behind `out`, if any
+	stubEnd  net.Conn      // the end the stub holds (handed out by the dialer / WithConnection)
 	wg       sync.WaitGroup
 }
 
